@@ -12,6 +12,7 @@ SIG_POS_ORDER = "sdn.parse.positional-map.uses-port-order-of-first-use"
 SIG_TOP_CLIMB = "sdn.parse.top.climbs-one-level-only"
 SIG_GLOB = "sdn.parse.rejects.glob-characters-in-escaped-identifier"
 
+SIG_MULTI = "sdn.parse.multi-name-wire-declaration.range-and-attributes-reach-first-name-only"
 SIG_ASC = "sdn.parse.ascending-range.read-as-descending"
 
 SIG_C04_EMPTY_BB = "compose-then-parse.rejects.portless-primitive-written-as-empty-celldefine-module"
@@ -341,7 +342,30 @@ def neutralise_asc(design):
     return d
 
 
+def grouped_wires(design):
+    """a wire declaration with several names whose range or attributes matter"""
+    from verilog_gen import _same_decl
+    for m in design["modules"]:
+        if not m.get("group_decls") or m["kind"] == "prim":
+            continue
+        o = m["decl_order"]
+        for a, b in zip(o, o[1:]):
+            if a[0] == "wire" and _same_decl(m, a, b):
+                w = m["wires"][a[1]]
+                if w["ranged"] or w["attrs"]:
+                    return True
+    return False
+
+
+def neutralise_grouped(design):
+    d = copy.deepcopy(design)
+    for m in d["modules"]:
+        m["group_decls"] = False
+    return d
+
+
 C06_KNOWN = [
+    (SIG_MULTI, grouped_wires, neutralise_grouped),
     (SIG_ASC, has_asc, neutralise_asc),
     (SIG_EMPTY_PRIM, lambda d: bool(empty_prims(d)), neutralise_empty_prim),
     (SIG_GLOB, lambda d: bool(glob_names(d)), neutralise_glob),
